@@ -132,7 +132,7 @@ func RunConsumers(r *vkit.Run, idx int, lagging bool) {
 					// block on the channel: every later commit to the table must wake us up
 					select {
 					case <-watch:
-					case <-time.After(20 * time.Second):
+					case <-time.After(vkit.Patient(20 * time.Second)):
 						if tbl.Revision(db.ReadTxn()) != tbl.Revision(snap) {
 							fail("consumer-never-woken", "consumer %d: blocked on the channel returned by Next for 20 s although the table changed (revision %d -> %d)", c, tbl.Revision(snap), tbl.Revision(db.ReadTxn()))
 							return
@@ -181,7 +181,7 @@ func RunConsumers(r *vkit.Run, idx int, lagging bool) {
 	go func() { cwg.Wait(); close(done) }()
 	select {
 	case <-done:
-	case <-time.After(60 * time.Second):
+	case <-time.After(vkit.Patient(60 * time.Second)):
 		fail("consumers-stuck", "consumers did not converge within 60 s after the writers stopped")
 	}
 	r.Count("changes_delivered", delivered.Load())
